@@ -136,7 +136,7 @@ def plan(tier, seed):
                      observe=rnd.random() < 0.3, async_steps=rnd.random() < 0.25, chatty=rnd.random() < 0.06,
                      loglevel=rnd.choice(LOGLEVELS) if rnd.random() < 0.3 else "",
                      logfilter=rnd.choice(LOGFILTERS) if rnd.random() < 0.3 else "",
-                     logclear=rnd.random() < 0.2, tamper=rnd.random() < 0.2, wip=rnd.random() < 0.12)
+                     logclear=rnd.random() < 0.2, tamper=rnd.random() < 0.2, wip=rnd.random() < 0.12, rootlvl0=rnd.random() < 0.15)
 
     def cleanup_only_programs():
         """programs in which NOTHING fails except a cleanup registered at a given layer (every layer, raising or not)"""
@@ -176,7 +176,46 @@ def plan(tier, seed):
             cands = [e for e in flat["elems"] if e["kind"] in ("feature", "rule", "scenario")]
             e = rnd.choice(cands)
             p["skips"] = [["before_" + e["kind"], e["id"]]]
+            late = [x for x in flat["elems"] if x["kind"] == "scenario" and x["steps"]]
+            if late and rnd.random() < 0.5:
+                # "skip the rest": the after_scenario hook of a scenario calls skip() on its feature or rule
+                s = rnd.choice(late)
+                ancs = []
+                x = s
+                while x["parent"]:
+                    x = flat["elems"][x["parent"] - 1]
+                    if x["kind"] in ("feature", "rule"):
+                        ancs.append(x["id"])
+                p["skips"] = [["after_scenario", s["id"], rnd.choice(ancs)]]
         return p
+
+    def lateskip_programs():
+        """after the first (failing or passing) scenario its after_scenario hook skips the rest of the feature / rule"""
+        res = []
+        for first in (["fail"], ["pass"], ["pass", "error"]):
+            for in_rule in (False, True):
+                for target_rule in ((False, True) if in_rule else (False,)):
+                    sc1, sc2, sc3 = G.scenario(first), G.scenario(["pass"]), G.scenario(["pass", "pass"])
+                    items = [G.rule([sc1, sc2]), G.rule([sc3])] if in_rule else [sc1, sc2, G.outline([([], [["pass"], ["fail"]])])]
+                    prog = {"features": [G.feature(items, bg=["pass"] if in_rule else None), G.feature([G.scenario(["pass"])])], "family": "lateskip"}
+                    flat = G.flatten(prog)
+                    s1 = [e for e in flat["elems"] if e["kind"] == "scenario"][0]
+                    rule_id = [e for e in flat["elems"] if e["kind"] == "rule"][0]["id"] if in_rule else 0
+                    feat_id = [e for e in flat["elems"] if e["kind"] == "feature"][0]["id"]
+                    prog["skips"] = [["after_scenario", s1["id"], rule_id if target_rule else feat_id]]
+                    res.append((with_o2(prog), [G.cfg(), G.cfg(stop=True), G.cfg(show_skipped=False, observe=True)], [[0, 0]]))
+        return res
+
+    def pair_programs(n):
+        """EVERY pair of hook invocations as fault set on small programs (two faults on the same element included)"""
+        progs = [{"features": [G.feature([G.scenario(["pass", "fail"], ["t1"])], ["t1"])], "family": "pairs"},
+                 {"features": [G.feature([G.rule([G.scenario(["pass"], ["t2"]), G.scenario(["pass"])], ["t1"])])], "family": "pairs"},
+                 {"features": [G.feature([G.outline([(["t1"], [["pass"], ["error"]])])], bg=["pass"])], "family": "pairs"}][:n]
+        res = []
+        for p in progs:
+            nh = G.count_hooks_upper(G.flatten(p))
+            res.append((with_o2(p), [G.cfg()], [[0, 0]] + [[a, b] for a in range(1, nh + 1) for b in range(a + 1, nh + 1)]))
+        return res
 
     def with_o2(p):
         """second-attempt outcomes for the steps of a program (scenario_autoretry)"""
@@ -219,6 +258,8 @@ def plan(tier, seed):
             out.append((with_o2(p), [rcfg()], rfaults(p, 2)))
         out.extend(cleanup_only_programs())
         out.extend(logging_programs())
+        out.extend(lateskip_programs())
+        out.extend(pair_programs(1))
     else:
         # ~85k runs: (a) EVERY hook invocation as injection point on the exhaustive family scen(2) under the default
         # configuration (also with autoretry: positions of the second attempt); (b) scen(3) under 4 configurations with
@@ -246,6 +287,8 @@ def plan(tier, seed):
             out.append((p, [dict(c, retry=False) for c in cf] if p.get("skips") else cf, [[0, 0]] + spread(nh, 6) + rfaults(p, 2)[1:]))
         out.extend(cleanup_only_programs())
         out.extend(logging_programs())
+        out.extend(lateskip_programs())
+        out.extend(pair_programs(3))
         for p in G.family_big(rnd, 300):
             out.append((with_o2(p), [rcfg(), rcfg()], rfaults(p, 6)))
     return out
@@ -255,7 +298,7 @@ def shared(chk, part="core"):
     """Run (or load) the shared stage for this tree / tier / seed.  Returns a dict:
        n_runs, tlc: [{module,cfg,distinct,generated,wall,coverage}], verdicts: {clause: [ {key, ...} ]},
        divergences, samples, design_violations"""
-    key = tree_key({"tier": chk.tier, "seed": chk.seed, "part": part, "v": 17})
+    key = tree_key({"tier": chk.tier, "seed": chk.seed, "part": part, "v": 18})
     os.makedirs(CACHE, exist_ok=True)
     # one entry per (part, tier, repository location): runs against a mutated copy must not evict /repo's entry
     prefix = "%s-%s-%s-" % (part, chk.tier, hashlib.sha256(REPO.encode()).hexdigest()[:8])
